@@ -132,6 +132,7 @@ func runC14(r *ev.Run) {
 			}
 		}
 	}
+	runCancelRacesReply(r, "C14")
 	c14Kademlia(r, g)
 }
 
